@@ -240,6 +240,13 @@ class CFG:
             self._edge(n, self.exit, lab)
         self._rd = None
         self._dom = None
+        # a test one of whose edges raises immediately is a guard, whichever way it is spelled
+        # (`sert(c, msg)`, `assert c`, `if not c: raise X(msg)`)
+        for t in self.nodes:
+            if t.kind == 'test' and t.guard is None:
+                for s2, lab in t.succ:
+                    if lab in (True, False) and self.raise_class_of(s2) is not None:
+                        t.guard = t.stmt if t.stmt is not None else t.ast
 
     # -- construction --------------------------------------------------------
     def _new(self, kind, node=None, stmt=None) -> Node:
